@@ -1,4 +1,5 @@
 import StunVerif.Props.C11
+import StunVerif.Props.C11Parse
 #print axioms StunVerif.C11.types_inv
 #print axioms StunVerif.C11.add_refused_iff
 #print axioms StunVerif.C11.sha1_refused_iff
@@ -7,3 +8,4 @@ import StunVerif.Props.C11
 #print axioms StunVerif.C11.refused_unchanged
 #print axioms StunVerif.C11.runOps_reach
 #print axioms StunVerif.C11.tail_shape
+#print axioms StunVerif.C11.queries_agree
